@@ -39,6 +39,11 @@ pub fn install_panic_hook() {
     }));
 }
 
+pub fn install_panic_hook_once() {
+    static ONCE: std::sync::Once = std::sync::Once::new();
+    ONCE.call_once(install_panic_hook);
+}
+
 /// Runs `f`, turning a panic into `Err(description)`.
 pub fn guarded<T>(f: impl FnOnce() -> T) -> Result<T, String> {
     QUIET_PANICS.with(|q| *q.borrow_mut() = true);
